@@ -241,6 +241,9 @@ def load_findings():
     return json.load(open(p))["findings"]
 
 
+CURRENT = []          # the Check objects of this process (main_wrapper looks at them when a later stage fails)
+
+
 class Check:
     """Collects what one check run did; writes evidence; computes the exit code."""
 
@@ -253,6 +256,7 @@ class Check:
         self.cov = {"samples": []}
         self.assumptions = []
         self.notes = []
+        CURRENT.append(self)
         # replay files of earlier runs of this property are stale
         rd = os.path.join(VERIF, "replays")
         if os.path.isdir(rd):
@@ -307,10 +311,12 @@ class Check:
 def main_wrapper(fn):
     try:
         rc = fn()
-    except Infra as e:
+    except (Infra, subprocess.TimeoutExpired) as e:
         log("INFRASTRUCTURE FAILURE (exit 2, not a verdict): " + str(e))
         rc = 2
-    except subprocess.TimeoutExpired as e:
-        log("INFRASTRUCTURE FAILURE (timeout): " + str(e))
-        rc = 2
+        # violations registered before the failing stage are observations of the real code and stay a verdict
+        for chk in CURRENT:
+            if chk.violations:
+                chk.notes.append("a later stage of the check failed for infrastructure reasons: " + str(e)[:300])
+                rc = chk.finish()
     sys.exit(rc)
